@@ -36,6 +36,7 @@ class MemS3:
         self.etag_counter = 0
         self.hook: Optional[Callable[[str, str, Dict[str, Any]], None]] = None   # hook(op, key, kwargs) before the effect
         self.requests: List[tuple] = []
+        self.real_clock_ages = False
 
     # ------------------------------------------------------------------ helpers
     def _call(self, op: str, key: str, kw: Dict[str, Any]) -> None:
@@ -46,9 +47,17 @@ class MemS3:
     def _put(self, key: str, body: bytes) -> str:
         self.etag_counter += 1
         etag = f'"e{self.etag_counter}"'
-        self.objects[key] = {"body": bytes(body), "etag": etag,
+        self.objects[key] = {"body": bytes(body), "etag": etag, "written_ms": self.now_ms(),
                              "lm": _dt.datetime.fromtimestamp(self.now_ms() / 1000.0, _dt.timezone.utc)}
         return etag
+
+    def _lm(self, o: Dict[str, Any]) -> Any:
+        """LastModified as seen by code that compares it with the REAL wall clock (the S3 lock's lease test reads
+        datetime.now(timezone.utc)): the object's VIRTUAL age is presented as a real age."""
+        if not self.real_clock_ages:
+            return o["lm"]
+        age_ms = self.now_ms() - o.get("written_ms", self.now_ms())
+        return _dt.datetime.now(_dt.timezone.utc) - _dt.timedelta(milliseconds=age_ms)
 
     # ------------------------------------------------------------------ boto3 surface
     def get_object(self, Bucket: str, Key: str, Range: Optional[str] = None, **kw: Any) -> Dict[str, Any]:
@@ -67,7 +76,7 @@ class MemS3:
         o = self.objects.get(Key)
         if o is None:
             raise _err("404", "HeadObject", 404)
-        return {"ETag": o["etag"], "LastModified": o["lm"], "ContentLength": len(o["body"])}
+        return {"ETag": o["etag"], "LastModified": self._lm(o), "ContentLength": len(o["body"])}
 
     def put_object(self, Bucket: str, Key: str, Body: Any = b"", IfMatch: Optional[str] = None,
                    IfNoneMatch: Optional[str] = None, **kw: Any) -> Dict[str, Any]:
